@@ -232,12 +232,18 @@ fn run(case: &Case) -> Outcome {
     while sh.targets[0].polls.load(SeqCst) == 0 {
         if let Ok(r) = done_rx.try_recv() {
             let _ = rt_thread.join();
+            if std::env::var("C03B_TRACE").is_ok() {
+                eprintln!("c03b: runtime thread ended early: {r:?}");
+            }
             return match r {
                 Err(e) => Outcome::inconclusive(e),
                 Ok(()) => Outcome::pass(false, &["no-events"]),
             };
         }
         if start.elapsed() > WATCHDOG {
+            if std::env::var("C03B_TRACE").is_ok() {
+                eprintln!("c03b: runtime thread did not start polling");
+            }
             return Outcome::inconclusive("runtime thread did not start polling");
         }
         std::thread::yield_now();
@@ -261,7 +267,8 @@ fn run(case: &Case) -> Outcome {
                                 if sh.abort.load(SeqCst) {
                                     return st;
                                 }
-                                std::hint::spin_loop();
+                                // (the machine is loaded: never spin against the runtime thread)
+                                std::thread::yield_now();
                             }
                         }
                         busy_wait(op.spin_us as u64);
@@ -328,6 +335,9 @@ fn run(case: &Case) -> Outcome {
                     format!("target{i}: posted {} woken {} seen {} of {} polls {}", t.posted.load(SeqCst), t.woken.load(SeqCst), t.seen.load(SeqCst), t.total, t.polls.load(SeqCst))
                 })
                 .collect();
+            if std::env::var("C03B_TRACE").is_ok() {
+                eprintln!("c03b: watchdog: {}", snapshot.join("; "));
+            }
             let out = if lost.is_empty() {
                 Outcome::inconclusive(format!("watchdog without an unobserved posted event ({})", snapshot.join("; ")))
             } else {
@@ -395,6 +405,9 @@ fn run(case: &Case) -> Outcome {
         let _ = rt_thread.join();
     }
     if let Err(o) = verdict {
+        if std::env::var("C03B_TRACE").is_ok() {
+            eprintln!("c03b: {o:?}");
+        }
         return o;
     }
 
@@ -438,7 +451,7 @@ fn main() {
     p.quick_cases = 600;
     p.thorough_cases = 12_000;
     p.threads = 2;
-    p.replay_repeats = 100;
+    p.replay_repeats = 25;
     p.max_shrink_iters = 12;
     let op = |target, settle, spin_us, how| WakeOp { target, settle, spin_us, how };
     p.regressions = vec![
